@@ -7,6 +7,7 @@ import (
 	"pgregory.net/rapid"
 
 	"github.com/LiskHQ/lisk-engine/pkg/labi"
+	"github.com/LiskHQ/lisk-engine/pkg/p2p"
 	"github.com/LiskHQ/lisk-engine/pkg/txpool"
 
 	"verif/sim/simkit"
@@ -37,7 +38,10 @@ type World struct {
 	Byz       []*Validator
 	Opts      WorldOpts
 	BlockTime time.Duration
+	OnRestart func(n *Node)
 }
+
+type p2pPeerID = p2p.PeerID
 
 func thresholdMin(w uint64) uint64 { return w/3 + 1 }
 func thresholdStd(w uint64) uint64 { return 2*w/3 + 1 }
@@ -99,6 +103,84 @@ func DrawWorld(t *rapid.T, o WorldOpts) *World {
 	gv, _ := labiSet(w.Vals, w.Weights)
 	mod := &simmod.Config{GenesisValidators: gv, PrecommitThreshold: pre, CertificateThreshold: cert, GenesisState: map[string][]byte{}, BlockEvents: simkit.Bool(t, "blockevents"),
 		Asset: simkit.Bool(t, "asset"), StrictNonce: true}
+	if o.ValidatorChanges {
+		nch := simkit.Int(t, "nchanges", 0, 3)
+		last := uint32(2)
+		prevWeights := map[int]uint64{}
+		for k, v := range w.Weights {
+			prevWeights[k] = v
+		}
+		for c := 0; c < nch; c++ {
+			h := last + uint32(simkit.Int(t, "changegap", 1, 25))
+			last = h
+			wts := map[int]uint64{}
+			tot := uint64(0)
+			active := 0
+			gentle := simkit.Chance(t, "gentle", 3, 4) // most changes move little weight, as a real validator election does
+			if gentle {
+				for k, v := range prevWeights {
+					wts[k] = v
+				}
+				nmod := simkit.Int(t, "nmod", 1, 2)
+				for j := 0; j < nmod; j++ {
+					vi := simkit.Int(t, "modwho", 0, len(w.Vals)-1)
+					delta := simkit.Int(t, "moddelta", -1, 1)
+					nw := int(wts[vi]) + delta
+					if nw < 0 {
+						nw = 0
+					}
+					wts[vi] = uint64(nw)
+				}
+				for _, v := range w.Vals {
+					if wts[v.Index] > 0 {
+						active++
+						if active > batch {
+							wts[v.Index] = 0
+						}
+					}
+					tot += wts[v.Index]
+				}
+			} else {
+				for _, v := range w.Vals {
+					wt := uint64(simkit.Int(t, "cweight", 0, 5))
+					if active >= batch {
+						wt = 0
+					}
+					if wt > 0 {
+						active++
+					}
+					wts[v.Index] = wt
+					tot += wt
+				}
+			}
+			if tot == 0 {
+				wts[0], tot = 1, 1
+			}
+			// the adversary keeps less than one third of every parameter set
+			bz := uint64(0)
+			for _, v := range w.Byz {
+				bz += wts[v.Index]
+			}
+			for _, v := range w.Byz {
+				if 3*bz >= tot {
+					bz -= wts[v.Index]
+					tot -= wts[v.Index]
+					wts[v.Index] = 0
+				}
+			}
+			if tot == 0 {
+				continue
+			}
+			cpre, ccert := thresholdStd(tot), thresholdStd(tot)
+			if !o.StandardThresholds {
+				cpre = uint64(simkit.Int(t, "cpre", int(thresholdMin(tot)), int(tot)))
+				ccert = uint64(simkit.Int(t, "ccert", int(thresholdMin(tot)), int(tot)))
+			}
+			lv, _ := labiSet(w.Vals, wts)
+			mod.Changes = append(mod.Changes, simmod.ValidatorChange{Height: h, PrecommitThreshold: cpre, CertificateThreshold: ccert, Validators: lv})
+			prevWeights = wts
+		}
+	}
 	cache := 515
 	if o.SmallCache && simkit.Bool(t, "smallcache") {
 		cache = simkit.Int(t, "cache", 3, 12)
@@ -109,7 +191,8 @@ func DrawWorld(t *rapid.T, o WorldOpts) *World {
 	if simkit.Bool(t, "smallmem") {
 		w.P.DBKnobs.MemTableSize = 256 << 10
 	}
-	g, err := BuildGenesis(w.P, uint32(simrt.Epoch.Unix()))
+	// the chain started 20 s before the simulation does, so that no (skewed) clock ever reads a time before genesis
+	g, err := BuildGenesis(w.P, uint32(simrt.Epoch.Unix())-20)
 	if err != nil {
 		t.Fatalf("infra: genesis: %v", err)
 	}
@@ -158,4 +241,155 @@ func (w *World) StartAll() {
 func (w *World) Describe() string {
 	s := fmt.Sprintf("validators=%d nodes=%d blocktime=%v batch=%d pre=%d cert=%d byz=%d", len(w.Vals), len(w.S.Nodes), w.BlockTime, w.P.BatchSize, w.P.Module.PrecommitThreshold, w.P.Module.CertificateThreshold, len(w.Byz))
 	return s
+}
+
+// FaultPlan says which fault kinds a run may use (swarm style: each run enables a drawn subset).
+type FaultPlan struct {
+	Partitions bool
+	Crashes    bool
+	Skew       bool
+}
+
+// ScheduleFaults draws fault events over [0, horizon]: partitions with heal, crash + restart of honest nodes,
+// constant clock skew per node. Everything is drawn now; the events fire on the simulated clock.
+func (w *World) ScheduleFaults(plan FaultPlan, horizon time.Duration) {
+	t := w.T
+	s := w.S
+	if plan.Skew {
+		for _, n := range s.Nodes {
+			if simkit.Chance(t, "skewed", 1, 3) {
+				n.Skew = time.Duration(simkit.Int(t, "skewms", -1500, 1500)) * time.Millisecond
+				s.Stats["clock_skew"]++
+			}
+		}
+	}
+	hz := int(horizon / time.Millisecond)
+	if plan.Partitions {
+		np := simkit.Int(t, "npartitions", 0, 3)
+		for i := 0; i < np; i++ {
+			at := time.Duration(simkit.Int(t, "partat", 0, hz)) * time.Millisecond
+			dur := time.Duration(simkit.Int(t, "partdur", 1, 12)) * w.BlockTime
+			groups := map[string]int{}
+			for _, p := range s.allPeers() {
+				groups[string(p)] = simkit.Int(t, "group", 0, 1)
+			}
+			s.At(at, "partition", func() {
+				g := map[p2pPeerID]int{}
+				for k, v := range groups {
+					g[p2pPeerID(k)] = v
+				}
+				s.Partition(g)
+				s.Stats["partition"]++
+			})
+			s.At(at+dur, "heal", func() { s.Heal(); s.Stats["heal"]++ })
+		}
+	}
+	if plan.Crashes {
+		nc := simkit.Int(t, "ncrashes", 0, 3)
+		for i := 0; i < nc; i++ {
+			n := s.Nodes[simkit.Int(t, "crashnode", 0, len(s.Nodes)-1)]
+			at := time.Duration(simkit.Int(t, "crashat", 0, hz)) * time.Millisecond
+			down := time.Duration(simkit.Int(t, "downfor", 1, 20)) * w.BlockTime
+			mode := simkit.Int(t, "crashmode", 0, 2) // 0 graceful, 1 kill, 2 power loss
+			s.At(at, "crash "+n.Name, func() {
+				if !n.Up {
+					return
+				}
+				n.Stop(mode == 0, mode == 2)
+				s.Stats["crash"]++
+				s.At(down, "restart "+n.Name, func() {
+					if n.Up || n.Hung {
+						return
+					}
+					if err := n.Start(); err != nil {
+						if s.NodePanic != nil {
+							s.NodePanic(n, "restart", fmt.Errorf("restart failed: %w (log %v)", err, n.Log.Tail(3)))
+						}
+						return
+					}
+					s.Stats["restart"]++
+					if w.OnRestart != nil {
+						w.OnRestart(n)
+					}
+					s.StartTicks(n)
+				})
+			})
+		}
+	}
+}
+
+// QuorumsIntersectInHonest reports whether, for every two parameter sets of the run (genesis and scheduled changes),
+// every precommit quorum of the one and every prevote-or-precommit quorum of the other share at least one honest
+// validator. This is the quorum-intersection premise of the Lisk-BFT safety argument; a schedule that hands most of
+// the weight to other validators in one step violates it by construction (two disjoint honest groups can each
+// finalize their own branch without anybody misbehaving), so C01 issues no verdict for such runs.
+func (w *World) QuorumsIntersectInHonest() bool {
+	type pset struct {
+		weights map[int]uint64
+		pre     uint64
+		prevote uint64
+	}
+	var sets []pset
+	mk := func(vals []*labi.Validator, pre uint64) pset {
+		p := pset{weights: map[int]uint64{}, pre: pre}
+		tot := uint64(0)
+		for _, lv := range vals {
+			for _, v := range w.Vals {
+				if string(v.Address) == string(lv.Address) && lv.BFTWeight > 0 {
+					p.weights[v.Index] = lv.BFTWeight
+					tot += lv.BFTWeight
+				}
+			}
+		}
+		p.prevote = 2*tot/3 + 1
+		return p
+	}
+	sets = append(sets, mk(w.P.Module.GenesisValidators, w.P.Module.PrecommitThreshold))
+	for _, ch := range w.P.Module.Changes {
+		sets = append(sets, mk(ch.Validators, ch.PrecommitThreshold))
+	}
+	n := len(w.Vals)
+	byz := map[int]bool{}
+	for _, v := range w.Byz {
+		byz[v.Index] = true
+	}
+	weightOf := func(p pset, mask int) uint64 {
+		t := uint64(0)
+		for i := 0; i < n; i++ {
+			if mask&(1<<uint(i)) != 0 {
+				t += p.weights[i]
+			}
+		}
+		return t
+	}
+	for a := range sets {
+		for b := range sets {
+			ta := sets[a].pre
+			tb := sets[b].pre
+			if sets[b].prevote < tb {
+				tb = sets[b].prevote
+			}
+			for ma := 0; ma < 1<<uint(n); ma++ {
+				if weightOf(sets[a], ma) < ta {
+					continue
+				}
+				for mb := 0; mb < 1<<uint(n); mb++ {
+					if weightOf(sets[b], mb) < tb {
+						continue
+					}
+					honest := false
+					for i := 0; i < n; i++ {
+						if ma&mb&(1<<uint(i)) != 0 && !byz[i] {
+							honest = true
+							break
+						}
+					}
+					if !honest {
+						return false
+					}
+				}
+			}
+		}
+	}
+	return true
 }
